@@ -482,6 +482,7 @@ type failedCase struct {
 	EnvSet2  map[string]string `json:"env_set2"`  // between start-up and reload
 	Files    map[string]string `json:"files"`     // secret files (name -> content) created before start-up under the case dir; __DIR__ in configs
 	RmFiles  []string          `json:"rm_files"`  // removed between start-up and reload
+	Files2   map[string]string `json:"files2"`    // rewritten between start-up and reload (a secret file whose content is rotated)
 	Probes   probeSet          `json:"probes"`
 	LimitHit *ingProbe         `json:"limit_hit"` // one request sent before the reload to take a token out of a bucket
 	// the admission controller's background refresh of the backlog-trend verdict (started by a request once the cached verdict is a
@@ -572,6 +573,9 @@ func reloadFailed(inb []byte) (any, error) {
 		setEnv(c.EnvSet2, c.EnvUnset)
 		for _, name := range c.RmFiles {
 			_ = os.Remove(filepath.Join(dir, name))
+		}
+		for name, content := range c.Files2 {
+			_ = os.WriteFile(filepath.Join(dir, name), []byte(content), 0o600)
 		}
 		var newCompiled config.Compiled
 		if c.FileKind == "" || c.FileKind == "text" {
